@@ -10,11 +10,12 @@ import re
 from ..gen import cells as G
 from ..gen import bocdags as D
 from .. import boc_strict as S
-from ..translate import arith
+from ..translate import arith, bocemit
 
 SPEC = dict(
-    translators=[('cell.py to_boc widths->Generated/BocWidths.lean', arith.regenerator('BocWidths'))],
-    lean_targets=['TonVerif.Proofs.SrcBocWidths'],
+    translators=[('cell.py to_boc widths->Generated/BocWidths.lean', arith.regenerator('BocWidths')),
+                 ('cell.py Cell.serialize, order, to_boc; deserialize.py Boc.__init__->Generated/BocEmitSrc.lean', bocemit.regenerate)],
+    lean_targets=['TonVerif.Proofs.SrcBocWidths', 'TonVerif.Proofs.SrcBocEmit'],
     manifest=dict(
         category='proof',
         text='Lean proves THE PROPERTY for all inputs (c04_conforms): for every spec-valid tree of cells (ordinary, pruned, library, Merkle proof/update; any nesting and sharing; C02 TreeWF) whose exotic '
@@ -25,23 +26,30 @@ SPEC = dict(
              'Also for ALL record lists / ANY valid order: c04_conforms_flat (byte-level layer), and the named clause lemmas widths_sufficient(_emit), refs_forward, each_once(_records), '
              'index_cumulative, crc_covers_prefix, completion_tag; order_valid / order_total for the model of Cell.order (terminates with the driver\'s fuel). '
              'Every run additionally executes the Lean strict reader AND an independent Python strict reader on the bytes the LIBRARY really emits for generated DAGs x 6 option sets and compares the decoded '
-             'DAG with the one the library holds; the emitter model is tied to the code byte-for-byte on the same inputs.',
+             'DAG with the one the library holds; the emitter model is tied to the code byte-for-byte on the same inputs. '
+             'TIE TO THE SOURCE (whole emitter): Cell.serialize, Cell.order and Cell.to_boc are REGENERATED from cell.py on every run (harness/translate/bocemit.py, pydict.py -> '
+             'Generated/BocEmitSrc.lean; a constructed Cell = PCell, dicts / sets of cells = insertion-ordered association lists keyed by __hash__, while stack: with an iteration budget) and Lean '
+             'proves for ALL cell objects, option sets and budgets that they equal the hand model (c04_src_serialize, c04_src_order, c04_src_to_boc); hence c04_src_conforms / c04_src_conforms_total: '
+             'the strict reader accepts the bytes of the REGENERATED emitter and decodes them to the same DAG; c04_src_order_total: budget 6*cells+2 suffices. A change of any line of these methods '
+             'breaks a proof obligation; the check then compares regenerated vs hand model in Lean on boundary DAGs and judges the differing ones first.',
         level_note='Trusted: Lean kernel (propext, Classical.choice, Quot.sound); Spec/Boc.lean (+ Spec/Cell.lean, Spec/Crc.lean) as the transcription of boc.tlb, tvm.pdf 3.1.4 and the reference-node checks; '
-                   'Model/BocEmit.lean (and Model/Cell.lean) as hand transcriptions of Cell.order/serialize/to_boc/__init__, tied to the code only by SAMPLED byte-for-byte correspondence '
+                   'Model/BocEmit.lean: Cell.order/serialize/to_boc are proved equal to the functions regenerated from the source (trusted instead: the translator pydict.py/pyobj.py/pybytes.py, '
+                   'its declared interface in bocemit.py - PCell reading of a Cell, _descriptors/_data_bytes as stored by __init__, dict keys by __hash__/__eq__, order returns the dict it fills, '
+                   'crc32c = Model.crc32c - and PyDict.lean, validated against the library on every change); additionally the SAMPLED byte-for-byte correspondence '
                    '(every generated DAG x 6 option sets per run, incl. 127/128/254-257/65536 cells, payload 126..65536 bytes, depth-1023 chains, exotic cells, maximal sharing; thorough: 65535/65537/70000 cells); '
                    'Python dict/set semantics modelled by hash map/set + key list; SHA-256 is a parameter in the theorems, with a LOCAL no-collision hypothesis; theorem domain: spec-valid cells whose exotic '
                    'cells carry their type byte, < 2^32 cells, < 2^63 payload bytes; 4-byte offset widths (> 16 MB of cell data) are never sampled; the Python harness.',
-        technique='Lean 4 proof (hand model, independent strict-reader spec) + the strict readers run on the library\'s real output + byte-for-byte correspondence',
+        technique='Lean 4 proof (hand model proved equal to the emitter regenerated from the source on every run; independent strict-reader spec) + the strict readers run on the library\'s real output + byte-for-byte correspondence',
     ),
     design_ref='DESIGN.md §6 C04',
     rule='DAGs: hand cases, random ordinary DAGs with content duplicates, connected DAGs 2..700 cells, twin sub-DAGs, exotic trees, lattices (maximal sharing), '
          'chains to depth 1023, exactly 127/128/254..257 cells, payload exactly 126..129/254..257/32767/32768/65535/65536 bytes, one 3000-cell DAG '
          '(thorough: 65535/65536/65537/70000 cells); each x 6 option sets; distinct = distinct (dag, root, option set); non-trivial = more than one cell or non-empty data',
     trusted_base=['Spec/Boc.lean transcribes boc.tlb serialized_boc#b5ee9c72 + the reference node\'s checks (independent of the library\'s parser)',
-                  'Model/BocEmit.lean mirrors Cell.order / Cell.serialize / Cell.to_boc by hand',
+                  'Model/BocEmit.lean: Cell.order / Cell.serialize / Cell.to_boc are proved equal to the functions regenerated from cell.py on every run (c04_src_*; trusted: translator pydict.py / pyobj.py / pybytes.py, the declared interface in bocemit.py, PyDict.lean)',
                   'harness/boc_strict.py: the same strict reader in Python (replays do not depend on the driver)',
                   'SHA-256 is an abstract parameter H in all theorems; the driver uses lean/TonVerif/Sha256.lean'],
-    assumptions=['correspondence is sampled differential testing of model vs library',
+    assumptions=['correspondence is sampled differential testing of model vs library (in addition to the source tie of the emitter)',
                  'Python dict = insertion-ordered map keyed by Cell.__hash__/__eq__ (modelled by a hash set/map over pyHash + key list)',
                  'strict reader rejects stored-hash (h=1) and absent cells, which the emitter never writes'],
 )
@@ -176,7 +184,25 @@ def check_case(ctx, batch, tag, nodes, root, big=False, opts=D.OPTS):
         batch.add(line, on_emit)
 
 
+def src_search(ctx):
+    """a source obligation of the emitter broke: Lean compares regenerated vs hand model on boundary DAGs; the differing DAGs are
+    judged first (strict readers on the library's bytes), then the rest of the grid"""
+    cases = bocemit.validation_dags()
+    found, _ = bocemit.diff_inputs(ctx, [c for c in cases if len(c[1]) <= bocemit.BIG])
+    first = [(t, n, r) for t, n, r, _ in found]
+    rest = [c for c in cases if c[0] not in {t for t, _, _ in first}]
+    batch = Batch(ctx)
+    for tag, nodes, root in first + rest:
+        check_case(ctx, batch, 'src-' + tag, nodes, root)
+        batch.flush()
+        if len(ctx.failures) >= 3:
+            break
+    return bool(ctx.failures)
+
+
 def run(ctx):
+    if ctx.search and src_search(ctx):
+        return
     import resource
     try:
         soft, hard = resource.getrlimit(resource.RLIMIT_STACK)          # deep List recursion in the driver on 70k-cell bags
